@@ -159,7 +159,7 @@ func boundaryScripts(r *core.Rng, B, S int, maxModelWrites int) []script {
 			n++
 			rem -= s
 		}
-		out = append(out, script{Sizes: sizes, Model: n <= maxModelWrites, Name: name})
+		out = append(out, script{Sizes: sizes, Model: maxModelWrites > 0 && n <= maxModelWrites, Name: name})
 	}
 	add("single", nil)
 	add("B-1", []int{B - 1})
